@@ -130,7 +130,9 @@ def lex_opcode_size(s: "Scanner") -> None:
 
         return lex_operand(s)
     else:
-        s.next()
+        # a missing specifier at the end of a line: leave the newline alone, the error belongs to this line.
+        if s.peek() != "\n":
+            s.next()
         raise ScannerException("Invalid Size Specifier", s.get_position())
 
 
